@@ -11,6 +11,14 @@ PY = "/venv/bin/python"
 
 # property -> (technique, level text, level note, design ref)
 CLAIMED = {
+    "C04": ("TLA+ specification of binary operations (spec/Arrays.tla BinOp = Align + pairing of cells by label coordinate) enumerated by TLC with "
+            "DimsRule / UnionRule / PairRule / Commutes theorems; pairings replayed, NumPy ufuncs evaluate the paired cells",
+            "TLC enumerates all ordered pairs of label sequences on a shared dimension (equal, permuted, nested, overlapping, disjoint; every storage "
+            "order) and 12 dimension configurations (private dims on either side, reordered dims, 0-d operands, 3-d); the spec decides which cell of a "
+            "meets which cell of b at every label coordinate, the harness evaluates the six operators with NumPy on exactly those pairs and compares "
+            "values, dtype kind, dims, labels and absence of metadata; scalar-left/right and ndarray-right operands are compared with NumPy on .values.",
+            "Trusted: TLC, projection/concretisation, NumPy ufuncs. Non-empty axes; default options.",
+            "5 (C04)"),
     "C06": ("TLA+ relational specification of align (spec/Arrays.tla Align / CommonAxis, Labels.tla UnionOK / InterOK) enumerated by TLC with "
             "SharedAxes / KeepsData / OthersUntouched theorems; scenarios replayed, label order compared only where the property fixes it",
             "TLC enumerates every list of 1-2 (thorough 1-3) one-dimensional arrays over all injective label sequences of the universe incl. empty, "
